@@ -145,6 +145,8 @@ func paramWeights() []uint64 {
 		return []uint64{4, 3, 2, 1}
 	case 5:
 		return []uint64{3, 1, 0, 4} // a zero-weight member (W=8, f=2, Q=6)
+	case 6:
+		return []uint64{1, 1, 1, 7} // member 3 alone holds the quorum weight (W=10, f=3, Q=7)
 	}
 	return equalWeights(4)
 }
